@@ -281,7 +281,7 @@ func init() {
 		Rule: "(a) order templates: every construct of the statement with marker-printing sub-expressions numbered in the documented order (receiver → chain argument → positional arguments → keyword arguments in written order incl. 2–8 kwargs with ascending/descending names, on func, method, built-in and _missing callees and in func-literal defaults; array elements incl. * unpacks; all non-short-circuit infix operators; range/slice bounds; object and map pairs; ** operands; embedded-string parts 2–5; stdin- and iterator-consuming positions identified by value), each run 6×; " +
 			"(b) reproducibility: generated programs rich in hash-ordered data (kwargs 2–12, duplicate kwargs/keys with first-occurrence-wins asserted by value, %{**m}/{**o}/f(**o), keys/values/items/A/S/repr/==, JSON.dec, evalEnv, error messages embedding containers) and corpus programs, each evaluated 24× in-process (64× thorough) and in 3 fresh processes: stdout, value, error, stack trace and the sequence of Eval events must be identical. " +
 			"distinct = distinct order templates + distinct reproducibility programs; non-trivial = all markers were printed (order) / the program contains ≥1 hash-ordered construct (reproducibility)" +
-			" Added: arguments of lonely/thoughtful/strict calls (nil receiver included), duplicate object/map keys and keyword defaults, 2–3 ** operands sharing keys judged by value; a floor makes the run inconclusive if a generated reproducibility program does not parse.",
+			" Added: arguments of lonely/thoughtful/strict calls (nil receiver included), duplicate object/map keys and keyword defaults, 2–3 ** operands sharing keys judged by value; a floor makes the run inconclusive if a generated reproducibility program does not parse. Sixth round: receiver-then-chain-argument order templates for 4 chain contexts × prop / literal / variable call; maps whose float keys print alike in the reproducibility programs.",
 		Assumptions: []string{
 			"Go randomises every map iteration, so N in-process repetitions sample layouts; for a k-entry hash-ordered construct the chance that N runs coincide by luck is ≤ (1/k!)^(N-1) for small k; templates therefore use ≥5 entries as well as small ones",
 			"key and value of one map pair may be evaluated in either order (the statement orders successive pairs)",
